@@ -146,7 +146,7 @@ func VerifH_C04_Tags() {
 		first = ""
 		for k := range run.ms.Responses {
 			resp := &run.ms.Responses[k]
-			if len(resp.Hrefs) == 1 && resp.Hrefs[0].Path == req.path {
+			if len(resp.Hrefs) == 1 && strings.TrimSuffix(resp.Hrefs[0].Path, "/") == strings.TrimSuffix(req.path, "/") {
 				var ge internal.GetETag
 				if err := resp.DecodeProp(&ge); err == nil {
 					first = internal.ETag(ge.ETag).String()
